@@ -68,6 +68,9 @@ def build(s):
 
 
 def mk(spec, coords, data, weights, q, kind):
+    if any(v != v for d in data for v in d):      # NaN readings: outside the exact model; checked by the oracle (composite versus its parts) only
+        return {"fn": "compose", "kind": kind, "args": [spec, coords, data, weights, q], "op": "power_comb 0",
+                "key": repr((spec, coords, [[None if v != v else v for v in d] for d in data]))}
     return {"fn": "compose", "kind": kind, "args": [spec, coords, data, weights, q],
             "op": f"compose {enc_spec(spec)} {C.enc(coords)} {C.enc(data)} {C.enc(weights)} {C.enc(q)}"}
 
@@ -166,7 +169,30 @@ def generate(rng, tier):
             spec = ["vector", [["chain", rand_steps(rng, reg, npts, 1, weighted, 1)] if rng.random() < 0.5 else rand_gridder1(rng, 2) for _ in range(2)]]
         else:
             spec = ["chain", rand_steps(rng, reg, npts, ncomp, weighted)]
-        cs.append(mk(spec, [es, ns], data, weights, q, spec[0] + ("-2comp" if ncomp == 2 else "") + ("-intdata" if intdata else "")))
+        tag = ""
+        u = rng.random()
+        if u < 0.08:
+            # repeated measurements: the same location occurs again with another value (and weight)
+            for j in range(rng.randint(1, 3)):
+                es.append(es[j]); ns.append(ns[j])
+                for dcomp in data:
+                    dcomp.append(dcomp[j] + rng.randint(1, 9) / 2.0)
+                if weights is not None:
+                    for wcomp in weights:
+                        wcomp.append(wcomp[j])
+            tag = "-repeated-points"
+        elif u < 0.2 and ncomp == 1:
+            # missing readings (NaN) through steps that accept them: neighbours and block reductions; IEEE: NaN + x = NaN
+            steps = [["knn", rng.randint(1, 3), rng.choice(["mean", "median", "max"])] for _ in range(rng.randint(2, 3))]
+            if rng.random() < 0.4:
+                region, shape, spacing, adjust = B.block_args(rng, reg)
+                steps = [["block_reduce", region, shape, spacing, adjust, "median", rng.random() < 0.4, True]] + [[x[0], 1, x[2]] for x in steps]
+            spec, weights = ["chain", steps], None
+            for j in rng.sample(range(npts), rng.randint(1, 2)):
+                data[0][j] = float("nan")
+            q = [q[0] + es[:6], q[1] + ns[:6]]
+            tag = "-nan-data"
+        cs.append(mk(spec, [es, ns], data, weights, q, spec[0] + ("-2comp" if ncomp == 2 else "") + ("-intdata" if intdata else "") + tag))
     return cs
 
 
@@ -174,7 +200,7 @@ def _args(coords, data, weights):
     key = repr(data[0][:3])
     cs = tuple(C.mkarr(c, [len(c)], f"{key}c{i}") for i, c in enumerate(coords))
     ds = tuple(C.mkarr(d, [len(d)], f"{key}d{i}") for i, d in enumerate(data))
-    if all(float(v).is_integer() for d in data for v in d):
+    if all(v == v and float(v).is_integer() for d in data for v in d):
         # integer-valued data are handed over with an integer dtype (elevations, counts): composition must not depend on it
         ds = tuple(np.asarray(d).astype("int64" if (len(data[0]) + i) % 2 else "int32") for i, d in enumerate(ds))
     ws = None if weights is None else tuple(C.mkarr(w, [len(w)], f"{key}w{i}") for i, w in enumerate(weights))
@@ -252,6 +278,8 @@ def _near_tie(spec, coords, data=None, weights=None, q=None):
 
 
 def compare(case, io, mo):
+    if case["op"] == "power_comb 0":
+        return "diff:implementation failed: " + io[1] if C.is_err(io) else "ok"
     e = C.err_compare(io, mo)
     if e and not (C.is_err(io) and C.is_err(mo)):
         if C.is_err(io):
@@ -275,16 +303,19 @@ def _close(a, b, tol=1e-7, scale=None):
     a, b = np.asarray(a, dtype=float), np.asarray(b, dtype=float)
     if a.shape != b.shape:
         return False
-    sc = np.maximum(1.0, np.abs(b)) if scale is None else scale
-    return bool(np.all(np.abs(a - b) <= tol * sc))
+    na, nb = np.isnan(a), np.isnan(b)
+    if not np.array_equal(na, nb):
+        return False                      # a missing value (NaN) on one side only
+    sc = np.maximum(1.0, np.abs(np.where(nb, 0.0, b))) if scale is None else scale
+    return bool(np.all(na | (np.abs(np.where(na, 0.0, a) - np.where(nb, 0.0, b)) <= tol * sc)))
 
 
 def oracle(case, io):
     spec, coords, data, weights, q = case["args"]
     if C.is_err(io):
         return "composition failed: " + io[1]
-    if _near_tie(spec, coords, data, weights, q):
-        return None
+    tie = _near_tie(spec, coords, data, weights, q)
+    nmax = lambda x: float(np.nanmax(np.abs(np.asarray(x, dtype=float)), initial=0.0))  # noqa: E731
     with warnings.catch_warnings():
         warnings.simplefilter("ignore")
         cs, d, w = _args(coords, data, weights)
@@ -299,8 +330,24 @@ def oracle(case, io):
         g = build(spec)
         g.fit(cs, d, w)
         pd = _tolist(g.predict(cs))
-        if not _close(np.array(fres) + np.array(pd), np.array(data), 1e-9, max(1.0, float(np.max(np.abs(pd))), float(np.max(np.abs(data))))):
+        if not _close(np.array(fres) + np.array(pd), np.where(np.isnan(np.array(pd)), np.nan, np.array(data, dtype=float)), 1e-9, max(1.0, nmax(pd), nmax(data))):
             return "filter's residual is not data minus prediction"
+        if spec[0] == "chain":
+            # every predicting step's own filter = what it was given, with data replaced by data minus ITS prediction at those coordinates
+            args = (cs, d, w)
+            for k, s_ in enumerate(spec[1]):
+                st = build(s_)
+                out = st.filter(*args)
+                if hasattr(st, "predict"):
+                    ref = build(s_)
+                    ref.fit(*args)
+                    p = np.array(_tolist(ref.predict(tuple(args[0]))))
+                    dat = np.array(_tolist(args[1]))
+                    if not _close(np.array(_tolist(out[1])) + p, np.where(np.isnan(p), np.nan, dat), 1e-9, max(1.0, nmax(p), nmax(dat))):
+                        return f"step {k} ({s_[0]}): its filter does not return data minus its own prediction"
+                args = out
+        if tie:
+            return None
         if spec[0] == "chain":
             steps = [build(s) for s in spec[1]]
             args = (cs, d, w)
@@ -314,7 +361,12 @@ def oracle(case, io):
                 if hasattr(st, "predict"):
                     p = np.array(_tolist(st.predict(qq)))
                     total = p if total is None else total + p
-            if not _close(pred, total):
+            total_d = None
+            for st in steps:
+                if hasattr(st, "predict"):
+                    p = np.array(_tolist(st.predict(cs)))
+                    total_d = p if total_d is None else total_d + p
+            if not _close(pred, total) or not _close(pd, total_d):
                 return "chain prediction is not the sum of the predictions of its steps, each fitted on what the previous filter returned"
             # telescoping for the suffix after the last reduction
             last_red = max([i for i, s in enumerate(spec[1]) if s[0].startswith("block")] + [-1])
@@ -330,7 +382,7 @@ def oracle(case, io):
                 p = np.array(_tolist(st.predict(tuple(start[0]))))
                 tot = p if tot is None else tot + p
             resid = np.array(_tolist(args[1]))
-            if not _close(tot + resid, np.array(_tolist(start[1])), 1e-9, max(1.0, float(np.max(np.abs(tot))), float(np.max(np.abs(resid))))):
+            if not _close(tot + resid, np.where(np.isnan(tot + resid), np.nan, np.array(_tolist(start[1]))), 1e-9, max(1.0, nmax(tot), nmax(resid))):
                 return "sum of step predictions at the data plus the last residual does not give back the data"
         if spec[0] == "vector":
             for i, s in enumerate(spec[1]):
